@@ -54,6 +54,119 @@ def mk(t, scale, dtype):
     return torch.tensor([i / scale for i in t["data"]], dtype=dtype).reshape(t["shape"])
 
 
+# ------------------------------------------------------------------------------------------
+# robustness dimensions (audit): memory layout, entry point, call history.  The LOGICAL input of a case never changes
+# with these fields, so the model term is the one of the plain case; what changes is how the tensors are laid out in
+# memory, through which public entry point the implementation is reached, and what happened to the objects before.
+# ------------------------------------------------------------------------------------------
+LAYOUTS = ["tct", "off", "step", "expand"]
+_SIDE = {}    # id(case) -> description of a failed relation that needs no model (same call twice, input modified, ...)
+
+
+def _side(case, what):
+    _SIDE.setdefault(id(case), what)
+
+
+def relayout(x, layout):
+    """the same logical tensor (shape, dtype, values) as a view with another memory layout:
+    tct    = transposed-contiguous-transposed (first and last axis): column-major strides
+    off    = interior of a larger NaN-filled buffer: storage offset and non-dense strides on every axis
+    step   = every second cell of the last axis of a NaN-filled buffer
+    expand = stride-0 broadcast view along an axis on which the tensor is constant (falls back to `off`)"""
+    if layout is None or x.dim() == 0:
+        return x
+    if layout == "tct":
+        if x.dim() < 2:
+            layout = "step"
+        else:
+            return x.transpose(0, -1).contiguous().transpose(0, -1)
+    if layout == "expand":
+        for a in range(x.dim()):
+            if x.shape[a] > 1 and x.numel() and bool((x == x.narrow(a, 0, 1)).all()):
+                return x.narrow(a, 0, 1).contiguous().expand(x.shape)
+        layout = "off"
+    if layout == "step":
+        big = torch.full(list(x.shape[:-1]) + [2 * x.shape[-1] + 1], float("nan"), dtype=x.dtype)
+        v = big[..., 1::2]
+        v.copy_(x)
+        return v
+    big = torch.full([n + 2 for n in x.shape], float("nan"), dtype=x.dtype)
+    v = big[tuple(slice(1, 1 + n) for n in x.shape)]
+    v.copy_(x)
+    return v
+
+
+def mkl(t, scale, dtype, layout=None):
+    return relayout(mk(t, scale, dtype), layout)
+
+
+def same_tensor(a, b):
+    return a.shape == b.shape and a.dtype == b.dtype and bool(torch.equal(a, b) or
+                                                               (torch.isnan(a) == torch.isnan(b)).all() and
+                                                               torch.equal(torch.nan_to_num(a), torch.nan_to_num(b)))
+
+
+def kind_of(e):
+    """exception kind; a TorchScript `raise X(...)` surfaces as torch.jit.Error with 'builtins.X: ...' in its text"""
+    if type(e).__name__ == "Error" and type(e).__module__.startswith("torch.jit"):
+        import re as _re
+        m = _re.findall(r"builtins\.(\w+):", str(e))
+        return m[-1] if m else "RuntimeError"
+    return exc_kind(e)
+
+
+def _res_of(fn):
+    try:
+        return ("ok", fn())
+    except Exception as e:  # noqa: BLE001
+        return ("err", kind_of(e))
+
+
+def _res_same(a, b, rtol):
+    if a[0] != b[0]:
+        return False
+    if a[0] == "err":
+        return a[1] == b[1]
+    x, y = a[1], b[1]
+    if x.shape != y.shape or x.dtype != y.dtype:
+        return False
+    if rtol == 0:
+        return same_tensor(x, y)
+    return bool(torch.allclose(x.double(), y.double(), rtol=rtol, atol=rtol, equal_nan=True))
+
+
+def call_twice(case, make_callable, inputs, x_key=0, rtol=0.0):
+    """Run the case's entry point.  With case['twice']: (a) the SAME entry object on the SAME tensor objects again must give
+    the same result and leave every input as it was; (b) after overwriting the main input IN PLACE with other values the
+    same objects must give what a fresh entry object gives on a fresh tensor with those values (no cache keyed by object
+    identity, no state carried over).  Returns the first result, canonicalised."""
+    f = make_callable()
+    before = [None if t is None else t.clone() for t in inputs]
+    r1 = _res_of(lambda: f(*inputs))
+    first = r1 if r1[0] == "err" else ("ok", impl_tensor(r1[1]))   # now: the result may alias the input (gamma = 0)
+    if r1[0] == "ok":
+        r1 = ("ok", r1[1].clone())
+    for t, b in zip(inputs, before):
+        if t is not None and not same_tensor(t, b):
+            _side(case, "the call modified one of its input tensors in place")
+    if case.get("twice"):
+        r2 = _res_of(lambda: f(*inputs))
+        if not _res_same(r1, r2, 0.0):
+            _side(case, "calling the same object twice on the same tensor objects gives two different results")
+        x = inputs[x_key]
+        if x.numel() and case.get("layout") != "expand" and x.dim() > 0:
+            new = x.flip(0).clone() * 2 + 1
+            x.copy_(new)
+            r3 = _res_of(lambda: f(*inputs))
+            fresh = list(inputs)
+            fresh[x_key] = new.clone()
+            r4 = _res_of(lambda: make_callable()(*fresh))
+            if not _res_same(r3, r4, rtol):
+                _side(case, "after overwriting the input tensor in place, the same objects give a result that differs from "
+                            "a fresh call on a fresh tensor with the same values")
+    return first
+
+
 def lit_tensor_fr(shape, fracs):
     return f"(mkT {cl([cn(s) for s in shape])} {cl([cq(f) for f in fracs])})"
 
@@ -149,50 +262,140 @@ def res_nonfinite(r):
 # ------------------------------------------------------------------------------------------
 # ops: histories of the module
 # ------------------------------------------------------------------------------------------
-def run_ops(case):
+def _init_stats(case):
+    """statistics handed to the constructor (ints / scale), or None"""
+    ini = case.get("init") or {}
+    f = lambda v: None if v is None else torch.tensor([i / case["scale"] for i in v], dtype=torch.float64)  # noqa: E731
+    return f(ini.get("mean")), f(ini.get("std"))
+
+
+def _last_stats(case, out):
+    """(mean, std) the module must normalise with after the history: those of the last successful store (as recorded when
+    it happened), else the ones given to the constructor (when both were), else None"""
+    ok = [s for s in out["stores"] if s[0] == "ok"]
+    if ok:
+        return ok[-1][1], ok[-1][2]
+    ini = case.get("init") or {}
+    if ini.get("mean") is not None and ini.get("std") is not None:
+        return [i / case["scale"] for i in ini["mean"]], [i / case["scale"] for i in ini["std"]]
+    return None
+
+
+def _do_store(m, op, defaults):
+    """store through positional, keyword or (where the flags equal the documented defaults) omitted arguments"""
+    d, b = op["delete"], op["bessel"]
+    if not defaults:
+        return m.store(delete_stats=d, bessel=b)
+    if d and not b:
+        return m.store()
+    if d:
+        return m.store(bessel=b)
+    if not b:
+        return m.store(d)
+    return m.store(d, b)
+
+
+def _new_mvn(case, with_init=True):
     from pydrobert.torch.modules import MeanVarianceNormalization
 
+    mean0, std0 = _init_stats(case) if with_init else (None, None)
+    if case.get("ctor_kw"):
+        m = MeanVarianceNormalization(dim=case["dim"], mean=mean0, std=std0, eps=case["eps"])
+    elif case["dim"] == -1 and mean0 is None and std0 is None and case["eps"] == TINY and case.get("store_defaults"):
+        m = MeanVarianceNormalization()
+    else:
+        m = MeanVarianceNormalization(case["dim"], mean0, std0, case["eps"])
+    if case.get("script"):
+        m = torch.jit.script(m)
+    return m
+
+
+def run_ops(case):
     dt = DT[case["dtype"]]
-    m = MeanVarianceNormalization(case["dim"], eps=case["eps"])
-    stores, final, live = [], None, []
+    lay = case.get("layout")
+    m = _new_mvn(case)
+    # a second object driven through the same history one step behind (interleaved use of two objects)
+    m2 = _new_mvn(case) if case.get("interleave") and not any("overwrite" in o for o in case["ops"]) else None
+    stores, stores2, final, live = [], [], None, []
+    objs, holds = {}, {}    # acc index -> tensor object; id(object) -> index of the acc whose values it holds now
+
+    def tensor_for(k, op):
+        if ("same" in op and op["same"] in objs and objs[op["same"]].dtype == dt and
+                same_tensor(objs[op["same"]], mk(op["x"], case["scale"], dt))):     # the very same tensor object again
+            x = objs[op["same"]]
+        elif ("overwrite" in op and op["overwrite"] in objs and lay != "expand" and
+              list(objs[op["overwrite"]].shape) == list(op["x"]["shape"])):          # same object, overwritten in place
+            x = objs[op["overwrite"]]
+            x.copy_(mk(op["x"], case["scale"], dt))
+        else:
+            x = mkl(op["x"], case["scale"], dt, lay)
+        objs[k] = x
+        holds[id(x)] = k
+        return x
+
+    def apply(mod, k, op, rec):
+        if op["op"] == "acc":
+            mod.accumulate(objs[k])
+            return
+        try:
+            _do_store(mod, op, case.get("store_defaults"))
+            rec.append(("ok", [float(v) for v in mod.mean.tolist()], [float(v) for v in mod.std.tolist()],
+                        str(mod.mean.dtype), str(mod.std.dtype)))
+            if op["delete"]:
+                if not (mod.count is None and mod.sum is None and mod.sumsq is None):
+                    rec.append(("bad", "statistics survive delete_stats=True"))
+        except Exception as e:  # noqa: BLE001
+            rec.append(("err", kind_of(e)))
+
     try:
-        for op in case["ops"]:
+        prev = None
+        for k, op in enumerate(case["ops"]):
             if op["op"] == "acc":
-                x = mk(op["x"], case["scale"], dt)
-                m.accumulate(x)
-                live.append(x)
-            else:
-                try:
-                    m.store(delete_stats=op["delete"], bessel=op["bessel"])
-                    stores.append(("ok", [float(v) for v in m.mean.tolist()], [float(v) for v in m.std.tolist()],
-                                   str(m.mean.dtype), str(m.std.dtype)))
-                    if op["delete"]:
-                        if not (m.count is None and m.sum is None and m.sumsq is None):
-                            stores.append(("bad", "statistics survive delete_stats=True"))
-                except Exception as e:  # noqa: BLE001
-                    stores.append(("err", exc_kind(e)))
+                live.append(tensor_for(k, op))
+            apply(m, k, op, stores)
+            if m2 is not None:
+                if prev is not None:
+                    apply(m2, prev[0], prev[1], stores2)
+                prev = (k, op)
+        if m2 is not None and prev is not None:
+            apply(m2, prev[0], prev[1], stores2)
         if m.count is None:
             final = ("ok", None)
         else:
             final = ("ok", [float(m.count.item()), [float(v) for v in m.sum.tolist()], [float(v) for v in m.sumsq.tolist()]])
     except Exception as e:  # noqa: BLE001
-        final = ("err", exc_kind(e))
+        final = ("err", kind_of(e))
     out = {"stores": stores, "final": final, "fwd": None}
-    # forward with the last stored statistics on every accumulated tensor
-    last_ok = [s for s in stores if s[0] == "ok"]
-    if last_ok and final[0] == "ok" and case.get("forward", True):
+    if m2 is not None and final[0] == "ok":
+        f2 = None if m2.count is None else [float(m2.count.item()), [float(v) for v in m2.sum.tolist()],
+                                            [float(v) for v in m2.sumsq.tolist()]]
+        if stores2 != stores or f2 != final[1]:
+            _side(case, "two MeanVarianceNormalization objects used in turns on the same history do not end with the same "
+                        "statistics (state shared between objects)")
+    # every tensor object must still hold the values it was given
+    for k, x in objs.items():
+        if holds.get(id(x)) == k and not same_tensor(x, mk(case["ops"][k]["x"], case["scale"], dt)):
+            _side(case, "accumulate()/store() modified an input tensor in place")
+    # forward with the last stored (or constructor-given) statistics on every accumulated tensor: the SAME tensor objects
+    # where they still hold the values of that step
+    if _last_stats(case, out) is not None and final[0] == "ok" and case.get("forward", True):
         fwd = []
-        for op in case["ops"]:
+        for k, op in enumerate(case["ops"]):
             if op["op"] != "acc":
                 continue
-            x = mk(op["x"], case["scale"], dt)
-            if _forward_overflows(x, case["dim"], m.mean, m.std, case["eps"]):
+            if k in objs and holds.get(id(objs[k])) == k:
+                x = objs[k]
+            else:
+                x = mkl(op["x"], case["scale"], dt, lay)
+            if m.mean is not None and m.std is not None and _forward_overflows(x, case["dim"], m.mean, m.std, case["eps"]):
                 fwd.append(("skip", None))   # (x - mean) / ~1e-38 is beyond the float range: nothing to compare
                 continue
             try:
                 fwd.append(("ok", impl_tensor(m(x))))
             except Exception as e:  # noqa: BLE001
-                fwd.append(("err", exc_kind(e)))
+                fwd.append(("err", kind_of(e)))
+            if not same_tensor(x, mk(op["x"], case["scale"], dt)):
+                _side(case, "forward() modified its input tensor in place")
         out["fwd"] = fwd
     return out
 
@@ -262,7 +465,8 @@ def ops_term(case, out):
     tola = cq((Fraction(1, 10**5) if loose else TOL64) if case.get("offgrid") else Fraction(0))
     parts = [f"check_ops {cz(case['dim'])} {lit_ops(case)} {tol} {tola} {stores} {final}"]
     if out["fwd"] is not None:
-        last = [s for s in out["stores"] if s[0] == "ok"][-1]
+        lm, ls = _last_stats(case, out)
+        last = ("ok", lm, ls)
         accs = [op for op in case["ops"] if op["op"] == "acc"]
         for op, f in zip(accs, out["fwd"]):
             if f[0] == "skip":
@@ -417,7 +621,8 @@ def ops_spec_term(case, out):
         c, sm, sq = out["final"][1]
         xs = cl([lit_case_tensor(x, case["scale"], dt) for x in live])
         parts.append(f"spec_buffers_okb {cz(case['dim'])} {xs} {tola} {cq(Fraction(c))} {lit_qs(fr_list(sm))} {lit_qs(fr_list(sq))}")
-    last = [s for s in out["stores"] if s[0] == "ok"]
+    ls = _last_stats(case, out)
+    last = [("ok", ls[0], ls[1])] if ls is not None else []
     accs = [op for op in case["ops"] if op["op"] == "acc"]
     for op, f in zip(accs, out["fwd"] or []):
         if f[0] != "ok" or not last:
@@ -502,21 +707,54 @@ def ops_metamorphic(case, out, rng_seed):
 # ------------------------------------------------------------------------------------------
 # norm: mean_var_norm with / without statistics
 # ------------------------------------------------------------------------------------------
+def _stat_tensor(vals, scale, dtype, layout):
+    """a statistics vector: float64 (or float32) on the grid; layouts: None, 'step', 'off', 'expand' (all entries equal)"""
+    if vals is None:
+        return None
+    v = torch.tensor([i / scale for i in vals], dtype=dtype)
+    if layout == "expand" and len(set(vals)) != 1:
+        layout = "off"
+    return relayout(v, layout)
+
+
+def _omit_defaults(pairs):
+    """keyword arguments without those that equal the documented default (None vs explicit default)"""
+    return dict((k, v) for k, v, d in pairs if not (v is d or (type(v) is type(d) and v == d)))
+
+
 def run_norm(case):
     from pydrobert.torch.functional import mean_var_norm
     from pydrobert.torch.modules import MeanVarianceNormalization
 
-    x = mk(case["x"], case["scale"], DT[case.get("dtype", "f64")])
-    mean = None if case["mean"] is None else torch.tensor([v / case["scale"] for v in case["mean"]], dtype=torch.float64)
-    std = None if case["std"] is None else torch.tensor([v / case["scale"] for v in case["std"]], dtype=torch.float64)
+    x = mkl(case["x"], case["scale"], DT[case.get("dtype", "f64")], case.get("layout"))
+    sdt = DT[case.get("sdtype", "f64")]
+    mean = _stat_tensor(case["mean"], case["scale"], sdt, case.get("slayout"))
+    std = _stat_tensor(case["std"], case["scale"], sdt, case.get("slayout"))
+    if case.get("alias") and mean is not None and case["mean"] == case["std"]:
+        std = mean                                      # the same tensor object for both statistics
+    dim, eps, via = case["dim"], case["eps"], case["via"]
+
+    def make():
+        if via == "module":
+            m = MeanVarianceNormalization(dim, mean, std, eps)
+            return lambda x_, mean_, std_: m(x_)
+        if via == "script":
+            m = torch.jit.script(MeanVarianceNormalization(dim=dim, mean=mean, std=std, eps=eps))
+            return lambda x_, mean_, std_: m(x_)
+        if via == "script_fn":
+            f = torch.jit.script(mean_var_norm)
+            return lambda x_, mean_, std_: f(x_, dim, mean_, std_, eps)
+        if via == "kw":
+            return lambda x_, mean_, std_: mean_var_norm(x=x_, dim=dim, mean=mean_, std=std_, eps=eps)
+        if via == "defaults":
+            return lambda x_, mean_, std_: mean_var_norm(x_, **_omit_defaults(
+                [("dim", dim, -1), ("mean", mean_, None), ("std", std_, None), ("eps", eps, TINY)]))
+        return lambda x_, mean_, std_: mean_var_norm(x_, dim, mean_, std_, eps)
+
     try:
-        if case["via"] == "module":
-            y = MeanVarianceNormalization(case["dim"], mean, std, case["eps"])(x)
-        else:
-            y = mean_var_norm(x, case["dim"], mean, std, case["eps"])
-        return ("ok", impl_tensor(y))
-    except Exception as e:  # noqa: BLE001
-        return ("err", exc_kind(e))
+        return call_twice(case, make, [x, mean, std], rtol=1e-12 if case.get("dtype", "f64") == "f64" else 1e-5)
+    except Exception as e:  # noqa: BLE001  (constructor errors)
+        return ("err", kind_of(e))
 
 
 def norm_sigma(case):
@@ -597,23 +835,49 @@ def norm_spec_term(case, out):
 # ------------------------------------------------------------------------------------------
 # deltas
 # ------------------------------------------------------------------------------------------
+MODULE_VIAS = ("module", "script", "module_kw")
+
+
 def run_deltas(case):
     from pydrobert.torch.functional import feat_deltas
     from pydrobert.torch.modules import FeatureDeltas
 
+    via = case["via"]
     # the module keeps float32 filters and does not convert them: it only accepts float32 input
-    x = mk(case["x"], case["scale"], torch.float32 if case["via"] == "module" else torch.float64)
+    f32 = via in MODULE_VIAS or via == "fn32"
+    x = mkl(case["x"], case["scale"], torch.float32 if f32 else torch.float64, case.get("layout"))
     value = case["value"] / case["scale"]
+    a = (case["dim"], case["time_dim"], case["concatenate"], case["order"], case["width"], case["mode"], value)
+    kw = dict(dim=a[0], time_dim=a[1], concatenate=a[2], order=a[3], width=a[4], pad_mode=a[5], value=a[6])
+
+    def make():
+        if via in MODULE_VIAS:
+            m = FeatureDeltas(**kw) if via == "module_kw" else FeatureDeltas(*a)
+            if via == "script":
+                m = torch.jit.script(m)
+            if case.get("warm"):
+                # the module object has been used before, on other data of another shape
+                for w in (x.flip(-1) * 3 - 1, torch.ones([3] * x.dim(), dtype=x.dtype).cumsum(0)):
+                    try:
+                        m(w)
+                    except Exception:  # noqa: BLE001
+                        pass
+            return m
+        if via == "script_fn":
+            f = torch.jit.script(feat_deltas)
+            return lambda x_: f(x_, *a)
+        if via == "kw":
+            return lambda x_: feat_deltas(x=x_, **kw)
+        if via == "defaults":
+            return lambda x_: feat_deltas(x_, **_omit_defaults(
+                [("dim", a[0], -1), ("time_dim", a[1], -2), ("concatenate", a[2], True), ("order", a[3], 2),
+                 ("width", a[4], 2), ("pad_mode", a[5], "replicate"), ("value", a[6], 0.0)]))
+        return lambda x_: feat_deltas(x_, *a)
+
     try:
-        if case["via"] == "module":
-            y = FeatureDeltas(case["dim"], case["time_dim"], case["concatenate"], case["order"], case["width"],
-                              case["mode"], value)(x)
-        else:
-            y = feat_deltas(x, case["dim"], case["time_dim"], case["concatenate"], case["order"], case["width"],
-                            case["mode"], value)
-        return ("ok", impl_tensor(y))
-    except Exception as e:  # noqa: BLE001
-        return ("err", exc_kind(e))
+        return call_twice(case, make, [x], rtol=1e-5 if f32 else 1e-11)
+    except Exception as e:  # noqa: BLE001  (constructor errors)
+        return ("err", kind_of(e))
 
 
 def _deltas_args(case):
@@ -662,8 +926,8 @@ def deltas_metamorphic(case, out):
         s = feat_deltas(x, d, case["time_dim"], False, *args)
         if s.flatten(d, d + 1).shape != y.shape or not torch.allclose(s.flatten(d, d + 1), y, atol=atol, rtol=0):
             return {"what": "concatenated deltas differ from stacked deltas merged along the same dimension"}
-    other = (FeatureDeltas(case["dim"], case["time_dim"], case["concatenate"], *args)(x.float()) if case["via"] != "module"
-             else feat_deltas(x, case["dim"], case["time_dim"], case["concatenate"], *args))
+    other = (FeatureDeltas(case["dim"], case["time_dim"], case["concatenate"], *args)(x.float())
+             if case["via"] not in MODULE_VIAS else feat_deltas(x, case["dim"], case["time_dim"], case["concatenate"], *args))
     if other.shape != y.shape or not torch.allclose(other.double(), y, atol=atol, rtol=0):
         return {"what": "FeatureDeltas module and feat_deltas function disagree"}
     return None
@@ -681,16 +945,32 @@ def run_return(case):
     from pydrobert.torch.functional import time_distributed_return
     from pydrobert.torch.modules import TimeDistributedReturn
 
-    r = mk(case["r"], case["scale"], DT[case.get("dtype", "f64")])
+    r = mkl(case["r"], case["scale"], DT[case.get("dtype", "f64")], case.get("layout"))
     g = _gamma(case)
+    if case.get("gamma_int") and g == int(g):
+        g = int(g)                      # a Python int where a float is documented (0 and 1 are the usual ones)
+    bf, via = case["bf"], case["via"]
+
+    def make():
+        if via == "module":
+            return TimeDistributedReturn(g, bf)
+        if via == "module_kw":
+            return TimeDistributedReturn(gamma=g, batch_first=bf)
+        if via == "script":
+            return torch.jit.script(TimeDistributedReturn(float(g), bf))
+        if via == "script_fn":
+            f = torch.jit.script(time_distributed_return)
+            return lambda r_: f(r_, float(g), bf)
+        if via == "kw":
+            return lambda r_: time_distributed_return(r=r_, gamma=g, batch_first=bf)
+        if via == "defaults":
+            return lambda r_: time_distributed_return(r_, g, **_omit_defaults([("batch_first", bf, False)]))
+        return lambda r_: time_distributed_return(r_, g, bf)
+
     try:
-        if case["via"] == "module":
-            R = TimeDistributedReturn(g, case["bf"])(r)
-        else:
-            R = time_distributed_return(r, g, case["bf"])
-        return ("ok", impl_tensor(R))
-    except Exception as e:  # noqa: BLE001
-        return ("err", exc_kind(e))
+        return call_twice(case, make, [r], rtol=1e-5 if case.get("dtype", "f64") == "f32" else 1e-11)
+    except Exception as e:  # noqa: BLE001  (constructor errors)
+        return ("err", kind_of(e))
 
 
 def _return_abs_scale(case):
@@ -788,26 +1068,54 @@ def return_python_spec(case, out):
 # ------------------------------------------------------------------------------------------
 # command line
 # ------------------------------------------------------------------------------------------
+def _cmd_names(case):
+    """(prefix, suffix, id -> id string, gid -> gid string): the default scheme u%03d / g%d, or the unusual-but-legal names of
+    the `names` option (ids that are prefixes of each other or contain the prefix / suffix, group ids like 'None', '1', 'g1'
+    vs 'g10')"""
+    nm = case.get("names")
+    ids = sorted(set([f["id"] for f in case["files"]] + [i for i, _ in (case["id2gid"] or [])]))
+    gids = sorted(set(g for _, g in (case["id2gid"] or [])))
+    if not nm:
+        return "", ".pt", dict((i, "u%03d" % i) for i in ids), dict((g, "g%d" % g) for g in gids)
+    return (nm["prefix"], nm["suffix"], dict((i, nm["ids"][k % len(nm["ids"])] + ("" if k < len(nm["ids"]) else str(k)))
+                                               for k, i in enumerate(ids)),
+            dict((g, nm["gids"][k % len(nm["gids"])] + ("" if k < len(nm["gids"]) else str(k))) for k, g in enumerate(gids)))
+
+
+def _cmd_sorted_files(case):
+    """the order in which the command visits the files: sorted by id string"""
+    idn = _cmd_names(case)[2]
+    return sorted(case["files"], key=lambda f: idn[f["id"]])
+
+
 def run_cmd(case, workdir):
     from pydrobert.torch import command_line
 
     d = os.path.join(str(workdir), "cmd-%d" % os.getpid())
     shutil.rmtree(d, ignore_errors=True)
     os.makedirs(os.path.join(d, "feat"))
+    prefix, suffix, idn, gidn = _cmd_names(case)
     try:
         for f in case["files"]:
-            torch.save(mk(f["x"], case["scale"], DT[case["dtype"]]), os.path.join(d, "feat", "u%03d.pt" % f["id"]))
+            torch.save(mk(f["x"], case["scale"], DT[case["dtype"]]), os.path.join(d, "feat", prefix + idn[f["id"]] + suffix))
         for name in case.get("junk", []):
             open(os.path.join(d, "feat", name), "w").write("not a feature file")
+        for name in (case.get("names") or {}).get("decoys", []):
+            # tensors the command must not read: neither prefix + id + suffix; far-off values would move the statistics
+            if name not in os.listdir(os.path.join(d, "feat")):
+                sh = case["files"][0]["x"]["shape"] if case["files"] else [2, 2]
+                torch.save(torch.full(sh, 1000.0, dtype=DT[case["dtype"]]), os.path.join(d, "feat", name))
         args = [os.path.join(d, "feat"), os.path.join(d, "out.pt"), "--dim", str(case["dim"]),
                 "--num-workers", str(case.get("num_workers", 0))]
+        if case.get("names"):
+            args += ["--file-prefix", prefix, "--file-suffix", suffix]
         if case["bessel"]:
             args.append("--bessel")
         if case["id2gid"] is not None:
             p = os.path.join(d, "id2gid")
             with open(p, "w") as fh:
                 for i, g in case["id2gid"]:
-                    fh.write("u%03d g%d\n" % (i, g))
+                    fh.write("%s %s\n" % (idn[i], gidn[g]))
                     if case.get("blank_lines"):
                         fh.write("\n")
             args += ["--id2gid", p]
@@ -824,7 +1132,8 @@ def run_cmd(case, workdir):
         if case["id2gid"] is None:
             groups = [[0, res["mean"].tolist(), res["std"].tolist()]]
         else:
-            groups = [[int(k[1:]), v["mean"].tolist(), v["std"].tolist()] for k, v in res.items()]
+            back = dict((v, k) for k, v in gidn.items())
+            groups = [[back.get(k, 10 ** 6), v["mean"].tolist(), v["std"].tolist()] for k, v in res.items()]
         return ("ok", groups)
     finally:
         shutil.rmtree(d, ignore_errors=True)
@@ -835,7 +1144,7 @@ def cmd_nonfinite(out):
 
 
 def cmd_term(case, out):
-    files = cl([cp(cn(f["id"]), lit_case_tensor(f["x"], case["scale"])) for f in sorted(case["files"], key=lambda f: "u%03d" % f["id"])])
+    files = cl([cp(cn(f["id"]), lit_case_tensor(f["x"], case["scale"])) for f in _cmd_sorted_files(case)])
     id2gid = "None" if case["id2gid"] is None else "(Some " + cl([cp(cn(i), cn(g)) for i, g in case["id2gid"]]) + ")"
     if out[0] == "ret":
         impl = "CmdRet1" if out[1] == 1 else None
@@ -865,6 +1174,7 @@ def cmd_spec_term(case, out):
 # dispatch
 # ------------------------------------------------------------------------------------------
 def run_impl(case, workdir):
+    _SIDE.pop(id(case), None)
     k = case["kind"]
     if k == "ops":
         return run_ops(case)
@@ -1308,6 +1618,238 @@ def gen_cmd_random(rng, malformed=False):
                 blank_lines=rng.random() < 0.3, stream="malformed" if malformed else "random")
 
 
+# ---- robustness audit: entry points, memory layouts, call histories, boundary parameters, unusual names -----------------
+NEW_VIAS = {"norm": ["script", "script_fn", "kw", "defaults", "module", "function"],
+            "deltas": ["script", "script", "script_fn", "kw", "defaults", "fn32", "module_kw", "module", "function"],
+            "return": ["script", "script_fn", "kw", "defaults", "module_kw", "module", "function"]}
+
+
+def _const_along(rng, t, avoid=None):
+    """make the tensor constant along one axis of size > 1 (so that it can be passed as an `expand`ed view)"""
+    sh = t["shape"]
+    axes = [a for a in range(len(sh)) if sh[a] > 1 and a != avoid] or [a for a in range(len(sh)) if sh[a] > 1]
+    if not axes or not numel(sh):
+        return t
+    a = rng.choice(axes)
+    x = torch.tensor(t["data"], dtype=torch.long).reshape(sh)
+    x = x.narrow(a, 0, 1).expand(sh).contiguous()
+    return {"shape": list(sh), "data": [int(v) for v in x.flatten().tolist()]}
+
+
+def vary(rng, c, stream):
+    """put a plain case into another entry point / memory layout / call history; its logical input stays what it is"""
+    k = c["kind"]
+    lay = rng.choice(LAYOUTS + [None])
+    c["layout"] = lay
+    if k == "ops":
+        # (an out-of-range dim is an IndexError eagerly and a RuntimeError under TorchScript: malformed histories stay eager)
+        c["script"] = rng.random() < 0.5 and c.get("stream") != "malformed"
+        c["store_defaults"] = rng.random() < 0.5
+        c["ctor_kw"] = rng.random() < 0.3
+        if lay == "expand":
+            for o in c["ops"]:
+                if o["op"] == "acc":
+                    o["x"] = _const_along(rng, o["x"], c["dim"] % max(len(o["x"]["shape"]), 1))
+    else:
+        c["via"] = rng.choice(NEW_VIAS[k])
+        if c.get("stream") == "malformed" and k != "return":
+            # a module refuses some malformed options in its constructor (ValueError): those go through the function only
+            c["via"] = rng.choice(["script_fn", "kw", "defaults", "function"])
+        c["twice"] = rng.random() < 0.6
+        key = "r" if k == "return" else "x"
+        if lay == "expand":
+            avoid = None
+            if k == "deltas" and -len(c["x"]["shape"]) <= c["time_dim"] < len(c["x"]["shape"]):
+                avoid = c["time_dim"] % len(c["x"]["shape"])
+            c[key] = _const_along(rng, c[key], avoid)
+        if k == "norm":
+            c["slayout"] = rng.choice([None, "step", "off", "expand"])
+            c["sdtype"] = rng.choice(["f64", "f64", "f32"])
+            if c["slayout"] == "expand":
+                for nm in ("mean", "std"):
+                    if c[nm] is not None and rng.random() < 0.7:
+                        c[nm] = [c[nm][0]] * len(c[nm])
+            if c["mean"] is not None and c["std"] is not None and len(c["mean"]) == len(c["std"]) and rng.random() < 0.3:
+                c["mean"] = list(c["std"])
+                c["alias"] = True
+        if k == "deltas":
+            c["warm"] = rng.random() < 0.5
+    c["stream"] = stream
+    return c
+
+
+def gen_deltas_layout(rng, far):
+    """every axis a different size >= 2 (a swapped or shifted axis changes the shape AND the values); `far`: the time axis at
+    least three axes from the end (time_dim <= ndim - 3, e.g. (T, N, F) with time_dim = 0), where swapping the time axis
+    to the end and shifting it there are different permutations"""
+    D = rng.choice([3, 3, 4]) if far else rng.choice([2, 3, 4])
+    order = rng.choice([1, 1, 2]) if D < 4 else 1
+    width = rng.choice([1, 2])
+    mode = rng.choice(MODES)
+    sizes = rng.sample([2, 3, 4] if D == 4 else [2, 3, 4, 5], D - 1)
+    T = rng.choice([t for t in (5, 6, 7) if t not in sizes and t >= _min_T(mode, order, width)])
+    td = rng.randint(0, D - 3) if far else rng.randint(0, D - 1)
+    shape = sizes[:td] + [T] + sizes[td:]
+    conc = rng.random() < 0.5
+    DD = D if conc else D + 1
+    dim = rng.randint(-DD, DD - 1)
+    c = dict(kind="deltas", x=rand_tensor(rng, shape), scale=rng.choice([1, 4]), dim=dim,
+             time_dim=td if rng.random() < 0.5 else td - D, concatenate=conc, order=order, width=width, mode=mode,
+             value=rng.randint(-8, 8) if mode == "constant" else 0, via="function")
+    c = vary(rng, c, "deltas-far" if far else "deltas-layout")
+    if rng.random() < 0.35:
+        c["layout"] = None
+    return c
+
+
+def gen_return_boundary(rng):
+    """gamma EXACTLY 1.0 / 0.0 (and -0.0, -1.0, the ints 0 / 1 / 2), both layouts with batch_first favoured, T != N"""
+    g = rng.choice([[1, 1], [1, 1], [1, 1], [0, 1], [0, 1], -0.0, [-1, 1], [2, 1], [1, 2]])
+    T, N = rng.choice([(1, 3), (2, 5), (3, 1), (3, 2), (4, 2), (5, 3), (6, 4), (7, 2), (9, 4), (2, 3), (3, 5), (1, 1), (4, 1)])
+    bf = rng.random() < 0.65
+    c = dict(kind="return", r=rand_tensor(rng, [N, T] if bf else [T, N]), scale=rng.choice([1, 4]), gamma=g, bf=bf,
+             exact=True, via="function")
+    c = vary(rng, c, "return-boundary")
+    if rng.random() < 0.3 and c["via"] in ("function", "kw", "defaults", "module", "module_kw"):
+        c["gamma_int"] = True
+    c["dtype"] = "f64"
+    return c
+
+
+def gen_return_boundary_long(rng):
+    """gamma exactly 1.0 over a long, non-square horizon (plain suffix sums), both layouts"""
+    cases = []
+    for bf in (True, False):
+        T, N = rng.choice([(300, 3), (200, 2)])
+        c = dict(kind="return", r=rand_tensor(rng, [N, T] if bf else [T, N], -3, 3), scale=1, gamma=[1, 1], bf=bf, exact=False,
+                 python_only=True, via=rng.choice(["function", "script", "module"]), layout=rng.choice(["tct", None]),
+                 stream="return-boundary")
+        cases.append(c)
+    return cases
+
+
+def gen_ops_history2(rng):
+    """call histories of one module object: the same tensor object accumulated again, a tensor object overwritten in place and
+    accumulated again, accumulates AFTER the last (non-deleting) store, statistics given to the constructor and then replaced
+    (or kept, when the store fails), a store that fails for want of frames followed by more data, two objects used in turns;
+    eager and scripted"""
+    dim = rng.choice([-1, -1, 0, 1, -2])
+    X = rng.choice([1, 2, 3])
+    nd_min = dim + 1 if dim >= 0 else -dim
+    ops, root, cur = [], {}, {}
+
+    def fresh(one_frame=False):
+        D = rng.randint(nd_min, max(nd_min, 3))
+        shape = [1 if one_frame else rng.choice([1, 2, 2, 3]) for _ in range(D)]
+        shape[dim] = X
+        return rand_tensor(rng, shape)
+
+    def acc(one_frame=False):
+        k = len(ops)
+        prev = [i for i, o in enumerate(ops) if o["op"] == "acc"]
+        u = rng.random()
+        if prev and u < 0.22 and not one_frame:
+            j = rng.choice(prev)
+            op = {"op": "acc", "x": dict(cur[root[j]]), "same": j}
+            root[k] = root[j]
+        elif prev and u < 0.42 and not one_frame:
+            j = rng.choice(prev)
+            x = rand_tensor(rng, cur[root[j]]["shape"])
+            op = {"op": "acc", "x": x, "overwrite": j}
+            root[k] = root[j]
+            cur[root[j]] = x
+        else:
+            op = {"op": "acc", "x": fresh(one_frame)}
+            root[k] = k
+            cur[k] = op["x"]
+        ops.append(op)
+
+    def store(delete=None):
+        ops.append({"op": "store", "delete": rng.random() < 0.4 if delete is None else delete, "bessel": rng.random() < 0.5})
+
+    if rng.random() < 0.2:          # a store that must fail: nothing or one frame so far
+        if rng.random() < 0.6:
+            acc(one_frame=True)
+        store()
+    for _ in range(rng.choice([1, 2, 3])):
+        acc()
+    for stage in range(rng.choice([1, 1, 2, 3])):
+        store(False if rng.random() < 0.7 else None)
+        if rng.random() < 0.3:
+            store(False)
+        for _ in range(rng.choice([0, 1, 1, 2])):
+            acc()
+    if rng.random() < 0.55:
+        store()
+    elif ops[-1]["op"] != "acc":
+        acc()
+    init = None
+    if rng.random() < 0.4:
+        what = rng.choice(["both", "both", "both", "mean", "std"])
+        init = {"mean": [rng.randint(-8, 8) for _ in range(X)] if what != "std" else None,
+                "std": [rng.choice([1, 2, 3, 5, 8]) for _ in range(X)] if what != "mean" else None}
+    c = dict(kind="ops", dim=dim, scale=rng.choice([1, 4]), dtype=rng.choice(["f64", "f64", "f32"]),
+             eps=rng.choice([TINY, 1e-5, 0.5]), ops=ops, init=init, interleave=rng.random() < 0.4)
+    c = vary(rng, c, "history2")
+    if c["layout"] == "expand" or rng.random() < 0.3:
+        c["layout"] = None
+    return c
+
+
+ID_POOLS = [["a", "ab", "abc", "b.pt", "pt", "a.pt", "u1", "u10", "u", "ua"],
+            ["utt", "utt.1", "utt.10", "utt_", "feat", "feat_utt", "x.feat", "x", "xx", "1"],
+            ["0", "00", "01", "1", "10", "1.0", "None", "none", "g0", "u000"]]
+GID_POOLS = [["g", "g1", "g10", "1", "None"], ["None", "none", "0", "00", "spk"], ["a", "ab", "b", "ba", "u000"]]
+
+
+def gen_cmd_names(rng):
+    """unusual but legal names: non-default --file-prefix / --file-suffix, ids that are prefixes of each other or contain the
+    prefix / suffix, group ids such as 'None', '1', 'g1' / 'g10'; files in the directory that do not match must be ignored"""
+    c = gen_cmd_random(rng)
+    prefix = rng.choice(["", "feat_", "u", "a"])
+    suffix = rng.choice([".pt", ".feat.pt", ".a", "pt"])
+    ids = list(rng.choice(ID_POOLS))
+    rng.shuffle(ids)
+    decoys = []
+    for nm in rng.sample(ids, 3):
+        for d in (("x" + prefix + nm + suffix) if prefix else None, prefix + nm + suffix + ".bak", prefix + nm + suffix[:-1],
+                  (prefix[:-1] + nm + suffix) if len(prefix) > 1 else None):
+            if d and not (d.startswith(prefix) and d.endswith(suffix)):
+                decoys.append(d)
+    c["names"] = {"prefix": prefix, "suffix": suffix, "ids": ids, "gids": list(rng.choice(GID_POOLS)), "decoys": sorted(set(decoys))[:4]}
+    c["junk"] = []
+    c["num_workers"] = 0
+    c["stream"] = "names"
+    return c
+
+
+def gen_audit(chk, rng):
+    th = chk.tier == "thorough"
+    m = 8 if th else 1
+    cases = []
+    for _ in range(36 * m):
+        cases.append(vary(rng, gen_norm_random(rng, malformed=rng.random() < 0.1), "entry"))
+    for _ in range(40 * m):
+        c = gen_deltas_random(rng, malformed=rng.random() < 0.1)
+        cases.append(vary(rng, c, "entry"))
+    for _ in range(30 * m):
+        cases.append(vary(rng, gen_return_random(rng, malformed=rng.random() < 0.1), "entry"))
+    for _ in range(24 * m):
+        cases.append(vary(rng, gen_ops_random(rng, malformed=rng.random() < 0.15), "entry"))
+    for _ in range(50 * m):
+        cases.append(gen_ops_history2(rng))
+    for _ in range(30 * m):
+        cases.append(gen_deltas_layout(rng, far=True))
+    for _ in range(24 * m):
+        cases.append(gen_deltas_layout(rng, far=False))
+    for _ in range(44 * m):
+        cases.append(gen_return_boundary(rng))
+    cases += gen_return_boundary_long(rng)
+    for _ in range(10 * m):
+        cases.append(gen_cmd_names(rng))
+    return cases
+
+
 def gen_cases(chk):
     th = chk.tier == "thorough"
     rng = chk.rng
@@ -1363,6 +1905,8 @@ def gen_cases(chk):
     for _ in range(20 * emult):
         cases.append(gen_deltas_offset(rng))
     cases += gen_return_f32(rng, th)
+    # robustness audit (drawn last)
+    cases += gen_audit(chk, rng)
     return cases
 
 
@@ -1375,14 +1919,35 @@ def _slice_tensor(t, d, keep):
     return {"shape": list(y.shape), "data": [int(v) for v in y.flatten().tolist()]}
 
 
+def _drop_op(ops, i):
+    """the history without its i-th step; references to tensor objects of other steps (`same` / `overwrite`) are renumbered,
+    references to the dropped step become plain fresh tensors"""
+    out = []
+    for k, o in enumerate(ops):
+        if k == i:
+            continue
+        o = dict(o)
+        for key in ("same", "overwrite"):
+            if key in o:
+                if o[key] == i:
+                    del o[key]
+                elif o[key] > i:
+                    o[key] -= 1
+        out.append(o)
+    return out
+
+
 def _cands(case):
     k = case["kind"]
     if k == "ops":
         for i in range(len(case["ops"])):
             c = dict(case)
-            c["ops"] = case["ops"][:i] + case["ops"][i + 1:]
+            c["ops"] = _drop_op(case["ops"], i)
             if c["ops"]:
                 yield c
+        for key in ("script", "interleave", "layout", "init", "store_defaults", "ctor_kw"):
+            if case.get(key):
+                yield dict(case, **{key: None})
     elif k in ("deltas", "norm", "return"):
         key = "r" if k == "return" else "x"
         t = case[key]
@@ -1394,6 +1959,9 @@ def _cands(case):
                     if (case["mean"] is not None and len(case["mean"]) == s) or (case["std"] is not None and len(case["std"]) == s):
                         continue
                 yield c
+        for key in ("twice", "layout", "warm", "slayout", "alias", "gamma_int"):
+            if case.get(key):
+                yield dict(case, **{key: None})
         if k == "deltas":
             if case["order"] > 1:
                 yield dict(case, order=case["order"] - 1)
@@ -1410,7 +1978,7 @@ def _cands(case):
 
 def _eval_one(chk, case):
     out = run_impl(case, chk.workdir)
-    if nonfinite(case, out):
+    if nonfinite(case, out) or _SIDE.pop(id(case), None):
         return out, False
     ok = coq_eval_bools(chk.workdir, IMPORTS, [model_term(case, out)], tag="one")[0]
     return out, ok
@@ -1431,7 +1999,7 @@ def _model_show(chk, case):
             return "(horizon too long for vm_compute; judged by the exact recursion in Python)"
         t = f"time_distributed_return {lit_case_tensor(case['r'], case['scale'])} {cq(Fraction(_gamma(case)))} {cb(case['bf'])}"
     else:
-        files = cl([cp(cn(f["id"]), lit_case_tensor(f["x"], case["scale"])) for f in sorted(case["files"], key=lambda f: f["id"])])
+        files = cl([cp(cn(f["id"]), lit_case_tensor(f["x"], case["scale"])) for f in _cmd_sorted_files(case)])
         id2gid = "None" if case["id2gid"] is None else "(Some " + cl([cp(cn(i), cn(g)) for i, g in case["id2gid"]]) + ")"
         t = f"compute_mvn_stats {files} {id2gid} {cz(case['dim'])} {cb(case['bessel'])}"
     return coq_eval_print(chk.workdir, IMPORTS, t)
@@ -1480,6 +2048,9 @@ def run(chk, cases=None):
         stream = c.pop("stream", "random")
         out = run_impl(c, chk.workdir)
         outs.append(out)
+        sd = _SIDE.pop(id(c), None)
+        if sd:
+            recs.append((idx, {"what": sd, "signature_kind": "layout-entry-history"}))
         nf = nonfinite(c, out)
         chk.note_case(c, nontrivial(c), stream)
         chk.count("kind=" + c["kind"])
@@ -1553,6 +2124,25 @@ def _nf_signature(case, out):
 
 def _histogram(chk, c, out):
     k = c["kind"]
+    if "layout" in c:
+        chk.count("audit.%s.layout=%s" % (k, c.get("layout")))
+        if k == "ops":
+            chk.count("audit.ops.script=%s" % bool(c.get("script")))
+            chk.count("audit.ops.interleave=%s" % bool(c.get("interleave")))
+            chk.count("audit.ops.init=%s" % ("none" if not c.get("init") else
+                                             "+".join(n for n in ("mean", "std") if c["init"].get(n) is not None)))
+            chk.count("audit.ops.same_object=%d" % sum(1 for o in c["ops"] if "same" in o))
+            chk.count("audit.ops.overwritten_object=%d" % sum(1 for o in c["ops"] if "overwrite" in o))
+            chk.count("audit.ops.ends_with=%s" % c["ops"][-1]["op"])
+        else:
+            chk.count("audit.%s.via=%s" % (k, c["via"]))
+            chk.count("audit.%s.twice=%s" % (k, bool(c.get("twice"))))
+    if k == "deltas":
+        D = len(c["x"]["shape"])
+        if -D <= c["time_dim"] < D:
+            chk.count("deltas.time_axis_from_end=%d" % (D - 1 - c["time_dim"] % D))
+    if k == "cmd" and c.get("names"):
+        chk.count("cmd.names.prefix=%r,suffix=%r" % (c["names"]["prefix"], c["names"]["suffix"]))
     if k == "ops":
         chk.count("ops.dim=%d" % c["dim"])
         chk.count("ops.n_acc=%d" % sum(1 for o in c["ops"] if o["op"] == "acc"))
